@@ -3,12 +3,14 @@ Model driver for C10. Line protocol (see harness/props/C10.py): manifest text, n
 are hex encoded ('-' = empty). One canonical result line per case, `bad-op` for anything that
 does not parse.
   m.seg H | m.iter H P | m.ext H S R | m.fb o0,..,on s | m.esc N | m.fix P   (Go manifest package)
+  m.clean P | m.num S | m.loc S       (path.Clean, strconv.ParseInt/ParseUint, blockdigest locator parsing)
   a.fs H | a.pdh H | a.esc N                                           (collection fs, PDH)
   p.seg H | p.lr sizes s n | p.fb sizes s | p.esc N                    (Python range mapper)
 -/
 import ArvVerif.Base.MD5
 import ArvVerif.Base.Loop
 import ArvVerif.Model.C10_Py
+import ArvVerif.Model.C10_Digest
 open ArvVerif ArvVerif.C10
 
 def unhex? (s : String) : Option Bytes :=
@@ -88,6 +90,28 @@ def step (line : String) : String :=
   | ["m.esc", n] =>
     match unhex? n with
     | some nm => escLine pkgEscape pkgUnescape nm
+    | none => "bad-op"
+  | ["m.clean", n] =>
+    match unhex? n with
+    | some nm => hx (pathClean nm)
+    | none => "bad-op"
+  | ["m.num", n] =>
+    match unhex? n with
+    | some s =>
+      let o {α : Type} [ToString α] (x : Option α) : String := match x with | some v => toString v | none => "e"
+      s!"{o (parseUint64 s)} {o (parseIntBits 64 s)} {o (parseIntBits 32 s)} {o (parseIntBits 64 s)} {o (parseHex64 s)}"
+    | none => "bad-op"
+  | ["m.loc", n] =>
+    match unhex? n with
+    | some s =>
+      let pl : String := match parseBlockLocator s with
+        | .ok b => s!"{rawStr (digestString b.digest)}:{b.size}:{joinOr "," (b.hints.map rawStr)}"
+        | .err => "err"
+        | .panic => "panic"
+      let fsr : String := match digestFromString s with
+        | some d => rawStr (digestString d)
+        | none => "err"
+      s!"{if isBlockLocator s then "1" else "0"} {pl} {pl} {fsr}"
     | none => "bad-op"
   | ["a.fs", h] =>
     match unhex? h with
